@@ -64,6 +64,17 @@ def main(ctx):
                             detail='both racing constructors succeeded under this line-level interleaving')
             continue
         impl = [res.get(0), res.get(1)]
+        if impl != m['pcs'] or [len(lines[0]), len(lines[1])] != m['steps']:
+            # a thread that is merely slow (machine under load) looks like a blocked one: re-run with a generous timeout
+            g2 = GuardScheduler(timeout=5.0)
+            res, lines, blocked, eff = g2.run(s)
+            m = ctx.driver.outs([{'op': 'c20.run', 'locked': True, 'schedule': eff, 'threads': 2}])[0]
+            impl = [res.get(0), res.get(1)]
+            ctx.count('timing_retries')
+            if res.get(0) == 'ok' and res.get(1) == 'ok':
+                ctx.clause_fail('mutual_exclusion', {'schedule': s, 'effective_schedule': eff, 'result': res},
+                                detail='both racing constructors succeeded under this line-level interleaving')
+                continue
         if impl != m['pcs']:
             ctx.diverge('thread guard outcome: model vs implementation',
                         {'schedule': s, 'effective': eff, 'impl': impl, 'model': m['pcs']})
